@@ -16,6 +16,7 @@ PROP_MODULES = {
     'C02': ['obligations.e2_jobs', 'obligations.cache_ops'],
     'C13': ['obligations.e2_jobs', 'obligations.fanout_ops'],
     'C06': ['obligations.block_ops'],
+    'C19': ['obligations.django_ops'],
     'C17': ['obligations.check_ops'],
     'C11': ['obligations.persist_ops'],
     'C12': ['obligations.persist_ops'],
